@@ -15,6 +15,9 @@ _refs = itertools.count(1)
 # feasibility checks only prune (an `unknown` keeps the path), so a short budget is sound; refutations are fast, models of
 # sequence constraints are not
 FEAS_TIMEOUT_MS = int(os.environ.get("PYVC_FEAS_TIMEOUT_MS", "150"))
+OUTCOME_FEAS_TIMEOUT_MS = int(os.environ.get("PYVC_OUTCOME_FEAS_TIMEOUT_MS", "40"))
+JOIN = os.environ.get("PYVC_JOIN", "1") == "1"
+MAX_STEPS = int(os.environ.get("PYVC_MAX_STEPS", "400000"))
 
 
 class Res:
@@ -231,6 +234,10 @@ class Contract:
         return None
 
 
+class _NoJoin(Exception):
+    pass
+
+
 class QInv:
     """quantified loop invariant  forall k. 0 <= k < bound(st) -> body(st, k)  over a log that grows by at most one entry
     per iteration.  inv-keep is split by hand (ground obligations instead of a skolemised quantifier):
@@ -264,9 +271,32 @@ class Engine:
     def feasible(self, st, extra=None, timeout=FEAS_TIMEOUT_MS):
         s = z3.Solver()
         s.set("timeout", timeout)
-        for c in st.pc:
-            if not _has_quantifier(c):     # quantified axioms are left out: fewer constraints can only keep more paths
-                s.add(c)
+        # cone of influence: only the conjuncts that (transitively) share a symbol with the condition can make it
+        # infeasible (the rest of the path condition is consistent by construction and independent of it)
+        qf = [c for c in st.pc if not _has_quantifier(c)]   # quantified axioms are left out: that can only keep more paths
+        if extra is not None:
+            syms = set(_symbols(extra))
+            if not syms:
+                qf = []
+            else:
+                todo = [(c, _symbols(c)) for c in qf]
+                chosen = []
+                changed = True
+                while changed:
+                    changed = False
+                    rest = []
+                    for c, cs in todo:
+                        if cs & syms:
+                            chosen.append(c)
+                            if not cs <= syms:
+                                syms |= cs
+                                changed = True
+                        else:
+                            rest.append((c, cs))
+                    todo = rest
+                qf = chosen
+        for c in qf:
+            s.add(c)
         if extra is not None:
             s.add(extra)
         self.feas_checks += 1
@@ -572,10 +602,8 @@ class Engine:
                 if name == "__class__":
                     return [Res(st, st.get(v, "__cls__"))]
                 # attribute of an exception object that was never set
-                vc = st.get(v, "__cls__")
-                if vc.qname is None:
-                    o = VOpaque(fresh("xattr_" + name, U))
-                    return [Res(st, o)]
+                # attributes that were never set are absent (assumption for exceptions raised by user code: they carry
+                # no attribute that Pyro itself looks for, e.g. `pyroMsg`)
                 return [self.raise_(st, "builtins.AttributeError")]
             m = self.R.models.get(v.cls)
             if m is not None:
@@ -962,6 +990,8 @@ class Engine:
         if isinstance(cont, VBytes) and isinstance(item, VBytes):
             return z3.Contains(cont.e, item.e)
         if isinstance(cont, VSet):
+            if isinstance(item, VNone) or not isinstance(item, (VInt, VStr, VBytes, VBool, VOpaque)) or z(item).sort() != cont.esort:
+                return z3.BoolVal(False)        # a value of another type is not a member
             return z3.Select(cont.e, z(item))
         if isinstance(cont, VObj):
             m = self.R.models.get(cont.cls)
@@ -1147,7 +1177,9 @@ class Engine:
                 raise Unsupported("star-args call at line %d" % node.lineno)
         # logging and friends are dropped (DESIGN 2.2)
         if self.is_dropped_call(node, st, module):
-            return [Res(st, NONE)]
+            # the logging call itself is dropped, but its arguments are evaluated (they may raise or have effects)
+            oks, excs = self.ev_list(list(node.args) + [k.value for k in node.keywords], st, module)
+            return [Res(s_, NONE) for s_, _vals in oks] + excs
         if isinstance(node.func, ast.Attribute) and node.func.attr in self.MUTATORS and not node.keywords:
             r = self.try_mutator(node, st, module)
             if r is not None:
@@ -1248,7 +1280,7 @@ class Engine:
     def call_qname(self, st, q, args, kwargs, node=None):
         if q in self.R.contracts:
             c = self.R.contracts[q]
-            if c.inline:
+            if c.inline or getattr(c, "inline_at_calls", False):
                 modq, fq = self.split_func(q)
                 mod = Module.load(modq)
                 return self.inline(st, mod.funcs[fq], mod, args, kwargs)
@@ -1296,7 +1328,7 @@ class Engine:
             q = recv.cls + "." + name
             if q in self.R.contracts:
                 c = self.R.contracts[q]
-                if c.inline:
+                if c.inline or getattr(c, "inline_at_calls", False):
                     modq, fq = self.split_func(q)
                     mod = Module.load(modq)
                     return self.inline(st, mod.funcs[fq], mod, [recv] + list(args), kwargs)
@@ -1350,7 +1382,7 @@ class Engine:
         return bound
 
     def contract_fnode(self, c):
-        modq, fq = self.split_func(c.name)
+        modq, fq = self.split_func(getattr(c, "real_name", None) or c.name)
         mod = Module.load(modq)
         if fq not in mod.funcs:
             raise Unsupported("function %s not found in %s" % (fq, modq))
@@ -1371,12 +1403,15 @@ class Engine:
         if hasattr(c, "prepare_call"):
             c.prepare_call(self, s1, a, None)      # e.g. give a freshly constructed object its (fresh) fields
         res = c.result(self, s1, a)
-        for label, cond in c.ensures(self, old, s1, a, res):
+        posts = [cond if not isinstance(cond, bool) else z3.BoolVal(cond) for label, cond in c.ensures(self, old, s1, a, res)]
+        ok1 = self.feasible(s1, z3.And(posts), timeout=OUTCOME_FEAS_TIMEOUT_MS) if posts else True
+        for cond in posts:
             s1.assume(cond)
         if hasattr(c, "refine_result"):
             res = c.refine_result(self, old, s1, a, res)
-        if getattr(c, "can_return", True) and self.feasible(s1):
-            s1.event("call", c.name, a, "return", res)
+        if getattr(c, "can_return", True) and ok1:
+            if getattr(c, "log_calls", True):
+                s1.event("call", c.name, a, "return", res)
             out.append(Res(s1, res))
         for q, meth in c.raises.items():
             s2 = st.fork()
@@ -1384,12 +1419,18 @@ class Engine:
             if hasattr(c, "prepare_call"):
                 c.prepare_call(self, s2, a, q)
             s2.trace.append("%s raises %s" % (site, q.split(".")[-1]))
-            exc = self.new_exc(s2, q)
+            if q in getattr(c, "raises_any_subclass", ()):
+                exc = self.new_sym_exc(s2, q, "exc_from_" + c.name.split(".")[-1])   # any class below q
+            else:
+                exc = self.new_exc(s2, q)
             c.exc_fields(self, s2, a, q, exc)
-            for label, cond in getattr(c, meth)(self, old, s2, a, exc):
+            xposts = [cond if not isinstance(cond, bool) else z3.BoolVal(cond) for label, cond in getattr(c, meth)(self, old, s2, a, exc)]
+            ok2 = self.feasible(s2, z3.And(xposts), timeout=OUTCOME_FEAS_TIMEOUT_MS) if xposts else True
+            for cond in xposts:
                 s2.assume(cond)
-            if self.feasible(s2):
-                s2.event("call", c.name, a, "raise", exc)
+            if ok2:
+                if getattr(c, "log_calls", True):
+                    s2.event("call", c.name, a, "raise", exc)
                 out.append(Res(s2, exc=exc))
         return out
 
@@ -1476,6 +1517,9 @@ class Engine:
 
     # ------------------------------------------------------------------------------------------------ statements
     def exec_block(self, stmts, st):
+        self._steps = getattr(self, "_steps", 0) + 1
+        if self._steps > MAX_STEPS:
+            raise Unsupported("step budget exceeded (%d blocks executed): path explosion" % MAX_STEPS)
         outs = [Out("next", st)]
         for s in stmts:
             new = []
@@ -1491,6 +1535,10 @@ class Engine:
         m = getattr(self, "st_" + type(node).__name__, None)
         if m is None:
             raise Unsupported("statement %s at line %d" % (type(node).__name__, node.lineno))
+        if isinstance(node, (ast.Assign, ast.AugAssign, ast.Expr, ast.AnnAssign)) and JOIN:
+            pre = st.fork()
+            outs = m(node, st)
+            return self.join_outcomes(pre, outs) if len(outs) > 1 else outs
         return m(node, st)
 
     def lift(self, results, k):
@@ -1716,6 +1764,7 @@ class Engine:
             # both branches only contain dropped (logging) calls: evaluate the test for its exceptions, do not fork
             return self.lift(self.ev(node.test, st), lambda s, v: [Out("next", s)])
         outs = []
+        pre = st.fork()
         for r in self.ev(node.test, st):
             if r.exc is not None:
                 outs.append(Out("raise", r.st, r.exc))
@@ -1723,7 +1772,187 @@ class Engine:
             for s2, t in self.branch(r.st, self.truth(r.val, r.st)):
                 s2.trace.append("L%d:%s" % (node.lineno, "T" if t else "F"))
                 outs.extend(self.exec_block(node.body if t else node.orelse, s2))
-        return outs
+        return self.join_outcomes(pre, outs)
+
+    # --- exact disjunctive join of the normal outcomes of an if / try statement ---------------------------------------
+    def _z3val(self, v):
+        """(z3 term, rebuild) for values that can be merged under a disjunction; None if not mergeable"""
+        if isinstance(v, VInt):
+            return v.e, lambda t: VInt(t)
+        if isinstance(v, VBool):
+            return v.e, lambda t: VBool(t)
+        if isinstance(v, VReal):
+            return v.e, lambda t: VReal(t)
+        if isinstance(v, VStr):
+            return v.e, lambda t: VStr(t)
+        if isinstance(v, VBytes):
+            return v.e, lambda t, k=v.kind: VBytes(t, k)
+        if isinstance(v, VOpaque):
+            return v.e, lambda t: VOpaque(t)
+        if isinstance(v, VNone):
+            return U_NONE, lambda t: VOpaque(t)
+        return None
+
+    def _merge_vals(self, vals, name, eqs, outs_n):
+        """merge the values a location has in the n outcomes; eqs[i] collects the equalities of disjunct i.
+        returns the merged value or raises _NoJoin"""
+        first = vals[0]
+        if all(v is first for v in vals):
+            return first
+        zs = [self._z3val(v) for v in vals]
+        if all(z is not None for z in zs) and len({z[0].sort() for z in zs}) > 1 and \
+                all(isinstance(v, (VBool, VInt, VStr, VOpaque, VNone)) for v in vals):
+            # values of different primitive types: merge as one opaque value (boxed), with the facts that make the boxes usable
+            t = fresh("join_" + name, U)
+            for i, v in enumerate(vals):
+                if isinstance(v, VBool):
+                    b = box_bool(v.e)
+                    eqs[i].extend([t == b, truthy(b) == v.e, b != U_NONE])
+                elif isinstance(v, VInt):
+                    b = box_int(v.e)
+                    eqs[i].extend([t == b, is_int(b), unbox_int(b) == v.e, truthy(b) == (v.e != 0), b != U_NONE])
+                elif isinstance(v, VStr):
+                    b = box_str(v.e)
+                    eqs[i].extend([t == b, is_str(b), unbox_str(b) == v.e, truthy(b) == (z3.Length(v.e) > 0), b != U_NONE])
+                else:
+                    eqs[i].append(t == (U_NONE if isinstance(v, VNone) else v.e))
+            return VOpaque(t)
+        if all(z is not None for z in zs):
+            sorts = {z[0].sort() for z in zs}
+            if len(sorts) == 1:
+                if all(z3.eq(z[0], zs[0][0]) for z in zs) and all(type(v) is type(first) for v in vals):
+                    return first
+                t = fresh("join_" + name, zs[0][0].sort())
+                for i, z in enumerate(zs):
+                    eqs[i].append(t == z[0])
+                # the result wrapper: opaque if any side is None/opaque
+                if any(isinstance(v, (VNone, VOpaque)) for v in vals):
+                    return VOpaque(t)
+                return zs[0][1](t)
+        if all(isinstance(v, VTuple) for v in vals) and len({len(v.items) for v in vals}) == 1:
+            return VTuple([self._merge_vals([v.items[k] for v in vals], "%s_%d" % (name, k), eqs, outs_n) for k in range(len(first.items))])
+        if all(isinstance(v, VObj) for v in vals) and len({v.cls for v in vals}) == 1:
+            if all(v.ref == first.ref for v in vals):
+                return first
+            return ("newobj", vals)
+        raise _NoJoin()
+
+    def try_join(self, pre, outs):
+        """outs: all-normal outcomes of one statement started in `pre`.  Returns one merged outcome whose path condition is
+        pre.pc + [Or_i(new assumptions of i  /\  merged locations == their values in i)], or None when states cannot be
+        merged exactly (then the paths stay split).  Exact: no information is lost, only the number of paths shrinks."""
+        n = len(outs)
+        if n < 2 or any(o.kind != "next" for o in outs):
+            return None
+        sts = [o.st for o in outs]
+        base = len(pre.pc)
+        if any(len(s.pc) < base or any(s.pc[i] is not pre.pc[i] for i in range(base)) for s in sts):
+            return None
+        s0 = sts[0]
+        if any(len(s.events) != len(s0.events) or s.locks != s0.locks or len(s.handling) != len(s0.handling) for s in sts):
+            return None
+        for k in range(len(pre.events), len(s0.events)):
+            if any(s.events[k] is not s0.events[k] for s in sts):
+                return None
+        try:
+            eqs = [[] for _ in range(n)]
+            m = s0.fork()
+            m.pc = list(pre.pc)
+            # environment
+            keys = set(s0.env)
+            for s in sts:
+                keys &= set(s.env)
+            m.env = {}
+            newobjs = []
+            for k in sorted(keys):
+                r = self._merge_vals([s.env[k] for s in sts], k, eqs, n)
+                if isinstance(r, tuple) and r[0] == "newobj":
+                    newobjs.append((("env", k), r[1]))
+                else:
+                    m.env[k] = r
+            for k in sorted(set(s0.ghost)):
+                if any(k not in s.ghost for s in sts):
+                    raise _NoJoin()
+                vals = [s.ghost[k] for s in sts]
+                if isinstance(vals[0], V):
+                    r = self._merge_vals(vals, "ghost_" + k, eqs, n)
+                    if isinstance(r, tuple):
+                        raise _NoJoin()
+                    m.ghost[k] = r
+                elif any(v is not vals[0] for v in vals):
+                    raise _NoJoin()
+            # heap: objects that existed before
+            for ref in pre.heap:
+                fields = set(s0.heap.get(ref, {}))
+                if any(set(s.heap.get(ref, {})) != fields for s in sts):
+                    raise _NoJoin()
+                for f in fields:
+                    vals = [s.heap[ref][f] for s in sts]
+                    if all(v is vals[0] for v in vals):
+                        continue
+                    if not isinstance(vals[0], V):
+                        if all(isinstance(v, z3.ExprRef) for v in vals):
+                            t = fresh("join_" + f, vals[0].sort())
+                            for i, v in enumerate(vals):
+                                eqs[i].append(t == v)
+                            m.heap[ref][f] = t
+                            continue
+                        if all(v == vals[0] for v in vals):
+                            continue
+                        raise _NoJoin()
+                    r = self._merge_vals(vals, f, eqs, n)
+                    if isinstance(r, tuple) and r[0] == "newobj":
+                        newobjs.append((("heap", ref, f), r[1]))
+                    else:
+                        m.heap[ref][f] = r
+            # freshly allocated objects held by a merged location: one merged object, fields merged
+            for loc, objs in newobjs:
+                if any(o.ref in pre.heap for o in objs):
+                    raise _NoJoin()
+                fsets = [set(sts[i].heap[o.ref]) for i, o in enumerate(objs)]
+                if any(fs != fsets[0] for fs in fsets):
+                    raise _NoJoin()
+                mo = m.new_obj(objs[0].cls)
+                for f in fsets[0]:
+                    vals = [sts[i].heap[o.ref][f] for i, o in enumerate(objs)]
+                    if isinstance(vals[0], V):
+                        r = self._merge_vals(vals, f, eqs, n)
+                        if isinstance(r, tuple):
+                            raise _NoJoin()
+                        m.heap[mo.ref][f] = r
+                    elif all(v is vals[0] or v == vals[0] for v in vals):
+                        m.heap[mo.ref][f] = vals[0]
+                    else:
+                        raise _NoJoin()
+                if loc[0] == "env":
+                    m.env[loc[1]] = mo
+                else:
+                    m.heap[loc[1]][loc[2]] = mo
+            # objects allocated in the branches and still referenced elsewhere keep their cells (first outcome's view)
+            for i, s in enumerate(sts):
+                for ref, cell in s.heap.items():
+                    if ref not in m.heap:
+                        m.heap[ref] = dict(cell)
+            disj = []
+            for i, s in enumerate(sts):
+                parts = list(s.pc[base:]) + eqs[i]
+                disj.append(z3.And(parts) if parts else z3.BoolVal(True))
+            if not any(z3.is_true(z3.simplify(d)) for d in disj):
+                m.pc.append(z3.Or(disj))
+            m.trace = list(pre.trace) + ["join(%d)" % n]
+            self.stats["joins"] = self.stats.get("joins", 0) + 1
+            return Out("next", m)
+        except _NoJoin:
+            return None
+
+    def join_outcomes(self, pre, outs):
+        normal = [o for o in outs if o.kind == "next"]
+        if len(normal) < 2 or not JOIN:
+            return outs
+        j = self.try_join(pre, normal)
+        if j is None:
+            return outs
+        return [j] + [o for o in outs if o.kind != "next"]
 
     def st_FunctionDef(self, node, st):
         st.env[node.name] = VClosure(node, st.env, self.cur_module)
@@ -1755,6 +1984,11 @@ class Engine:
         return self.branch(st, z3.Or(conds) if len(conds) > 1 else conds[0])
 
     def st_Try(self, node, st):
+        pre = st.fork()
+        res = self._st_Try(node, st)
+        return self.join_outcomes(pre, res)
+
+    def _st_Try(self, node, st):
         outs = self.exec_block(node.body, st)
         res = []
         for o in outs:
@@ -2023,6 +2257,7 @@ class Engine:
     def _verify(self, c, variant):
         n0 = len(self.obligations)
         self.cur = c
+        self._steps = 0
         if variant is not None:
             self.cur = type("V", (), {"name": "%s<%s>" % (c.name, variant)})()
             for attr in ("sum_function", "local_abstraction"):
@@ -2032,7 +2267,7 @@ class Engine:
             mod, fnode = self.contract_fnode(c)
             self.cur_module = mod
             self.cur_contract = c
-            fq = self.split_func(c.name)[1]
+            fq = self.split_func(getattr(c, "real_name", None) or c.name)[1]
             self.cur_class = fq.rsplit(".", 1)[0] if "." in fq else None
             self.number_loops(fnode)
             st = State()
@@ -2104,6 +2339,37 @@ class Engine:
             s2.assume(sub(vc.term, CL.term(q)))
             for label, cond in getattr(c, m)(self, old, s2, a, exc):
                 self.oblige(s2, "xpost[%s:%s]#p%d" % (q.split(".")[-1], label, npaths), cond)
+
+
+_symcache = {}
+
+
+def _symbols(e):
+    """names of the uninterpreted constants / functions occurring in e (cached per term id)"""
+    k = e.get_id()
+    r = _symcache.get(k)
+    if r is not None:
+        return r
+    out = set()
+    todo = [e]
+    seen = set()
+    while todo:
+        x = todo.pop()
+        i = x.get_id()
+        if i in seen:
+            continue
+        seen.add(i)
+        if z3.is_quantifier(x):
+            todo.append(x.body())
+            continue
+        if z3.is_app(x):
+            d = x.decl()
+            if d.kind() == z3.Z3_OP_UNINTERPRETED:
+                out.add(d.name())
+            todo.extend(x.children())
+    r = frozenset(out)
+    _symcache[k] = r
+    return r
 
 
 _qcache = {}
